@@ -891,5 +891,7 @@ KNOWN_PREDICATES = {F14: _f14}
 
 
 def ops():
+    import common
+    common.foreign_configurations()
     import strf2ops
     return [Strftime(), StrfBad(), Strptime(), RoundTrip(), Sweep(), strf2ops.Strftime2Op()]
